@@ -30,7 +30,8 @@ theorem built_inv (C : Crypto) (reg : Option (List (List Nat × Nat))) (c : Chai
   | step c c' b _ happ hts hsig ih => exact inv_append C reg c c' b ih happ hts hsig
 
 /-- PARTIAL (missing: `append` itself does not enforce the two side conditions of `Built.step`, so the
-    unconditional statement is false — see the two witnesses below).  Any chain of any length built
+    unconditional statement is false for RAW `append` — see the two witnesses below; for chains built through the
+    workspace commit path the side conditions are discharged in `commit_built_chain_verifies`).  Any chain of any length built
     through `append` from blocks whose timestamps do not go back and whose height-1 block is signed
     verifies. -/
 theorem built_chain_verifies_partial (C : Crypto) (reg : Option (List (List Nat × Nat))) (c : ChainSt)
@@ -596,7 +597,8 @@ def witnessSched : List Nat := [0, 1, 0, 1, 0, 1, 0, 1, 0, 1, 0, 1, 1]
 
 def witnessRun : Node × List Local := runSched drvCrypto witnessSched twoWs ([0, 1].map fun w => Local.init w 5)
 
-/-- WITNESS (DESIGN §8 row 12): two overlapping `commit`s.  Both snapshot, both apply, both build height 1;
+/-- WITNESS (DESIGN §8 row 12; replayed on the real `TensorChain` by the harness under the deterministic scheduler,
+    unit script `0A 1A 0B 1B 0C 1C 0D 1D`): two overlapping `commit`s.  Both snapshot, both apply, both build height 1;
     thread 0's append wins; thread 1's append fails on the height check and it restores its snapshot — taken
     before thread 0 stored its block.  Result: in-memory height 1, block record 1 gone, `verify_chain` =
     `BlockNotFound(1)`, although thread 0 was told `Ok`. -/
@@ -622,8 +624,8 @@ def orderSched : List Nat := [0, 0, 0, 1, 1, 1, 1, 1, 1, 0, 0, 0]
 
 def orderRun : Node × List Local := runSched drvCrypto orderSched sameKeyWs ([0, 1].map fun w => Local.init w 5)
 
-/-- WITNESS (second symptom of the same defect, observed on the real code as
-    `tensor_chain.commit/concurrent_store_diverges_from_chain`): both overlapping commits return `Ok`, the chain has
+/-- WITNESS (second symptom of the same defect, reproduced on the real code under the deterministic scheduler, unit
+    script `0A 0B 1A 1B 1C 1D 0C 0D`, as `tensor_chain.commit/concurrent_store_diverges_from_chain`): both overlapping commits return `Ok`, the chain has
     two new blocks and verifies — but the writes were applied to the store in the order 0,1 and the blocks were
     appended in the order 1,0, so the store holds `d1 = 11` while replaying the chain gives `d1 = 10`:
     the sequential-history invariant `DataInv` fails. -/
